@@ -138,4 +138,7 @@ class HyperCubeExperimenter(experimenter.Experimenter):
     self._exptr.evaluate(orig_suggestions)
 
     for suggestion, orig_suggestion in zip(suggestions, orig_suggestions):
-      suggestion.final_measurement = orig_suggestion.final_measurement
+      suggestion.complete(
+          orig_suggestion.final_measurement,
+          infeasibility_reason=orig_suggestion.infeasibility_reason,
+      )
